@@ -10,7 +10,7 @@ import z3
 
 from . import smt
 from .ctx import Ctx, Undecided, PathEnd, Signal, PyExc, Ret, Brk, Cont
-from .values import (SV, Ref, Rope, SymSeq, Ext, ExcVal, BigInt, Closure, BoundMethod, ValMethod, Opaque,
+from .values import (SV, Ref, Rope, SymSeq, Ext, ExcVal, BigInt, Closure, BoundMethod, ValMethod, Opaque, OptV,
                      z, tag_of, concrete)
 
 
@@ -58,6 +58,9 @@ class ModuleIndex:
 
 def truth(c, v):
     """Python truthiness of a value as python bool or z3 Bool."""
+    if isinstance(v, OptV):
+        t = truth(c, v.val)
+        return z3.And(z3.Not(v.isnone), z3.BoolVal(t) if isinstance(t, bool) else t)
     if isinstance(v, SV):
         if v.tag == "bool":
             return v.t
@@ -241,7 +244,7 @@ class Interp:
         f = self.pure_truth(c, test)
         if f is not None:
             return f
-        return truth(c, self.ev(c, test))
+        return truth(c, self.ev(c, test, raw=True))
 
     def pure_truth(self, c, e):
         """Formula for tests built from and/or/not over sub-tests that need no forking themselves."""
@@ -260,11 +263,7 @@ class Interp:
                 return None
             return (not p) if isinstance(p, bool) else z3.Not(p)
         if self.is_simple(e):
-            mark = (len(c.trace), len(c.pc))
-            v = self.ev(c, e)
-            if (len(c.trace), len(c.pc)) != mark:
-                # evaluating forked after all; the value is still right on this path
-                pass
+            v = self.ev(c, e, raw=True)
             return truth(c, v)
         return None
 
@@ -403,6 +402,8 @@ class Interp:
             if isinstance(m, tuple) and isinstance(m[0], Ref):
                 allowed.add((m[0].id, m[1]))
                 ov = old.heap[m[0].id].data.get(m[1]) if m[0].id in old.heap and isinstance(old.heap[m[0].id].data, dict) else None
+                if isinstance(ov, OptV):
+                    ov = ov.val
                 if isinstance(ov, Ref) and ov.kind in ("list", "dict"):
                     allowed.add((ov.id, None))
             elif isinstance(m, Ref):
@@ -431,6 +432,17 @@ class Interp:
     def same_value(self, c, a, b):
         if a is b:
             return True
+        if isinstance(a, OptV) or isinstance(b, OptV):
+            from .values import isnone, unopt
+            na, nb = isnone(a), isnone(b)
+            na = z3.BoolVal(na) if isinstance(na, bool) else na
+            nb = z3.BoolVal(nb) if isinstance(nb, bool) else nb
+            va, vb = unopt(a), unopt(b)
+            if va is None or vb is None:
+                return z3.And(na, nb)
+            inner = self.same_value(c, va, vb)
+            inner = z3.BoolVal(inner) if isinstance(inner, bool) else inner
+            return z3.And(na == nb, z3.Implies(z3.Not(na), inner))
         if isinstance(a, tuple) and isinstance(a, tuple) and isinstance(b, tuple):
             if len(a) != len(b) or len(a) and isinstance(a[0], (z3.ExprRef, bool)) and len(a) == 2 and False:
                 return False
@@ -643,11 +655,31 @@ class Interp:
                 self.e.models.lock_release(c, m, s, exceptional=False)
 
     # ================================================================ expressions
-    def ev(self, c, e):
+    def ev(self, c, e, raw=False):
+        """Evaluate; lazily optional values are forced (forking on None-ness) unless raw is set, which the
+        callers that only test None-ness / truthiness use."""
         m = getattr(self, "e_" + type(e).__name__, None)
         if m is None:
             raise Undecided(f"expression {type(e).__name__} at line {getattr(e, 'lineno', '?')}")
-        return m(c, e)
+        v = m(c, e)
+        if isinstance(v, OptV) and not raw:
+            v = c.force(v)
+            # refine the stored representation along this path (no semantic change)
+            if isinstance(e, ast.Name):
+                f = c.frames[-1]
+                while f is not None:
+                    if e.id in f.locals:
+                        f.locals[e.id] = v
+                        break
+                    f = f.parent
+            elif isinstance(e, ast.Attribute):
+                try:
+                    o = self.ev(c, e.value)
+                    if isinstance(o, Ref) and o.kind == "obj" and c.hasf(o, e.attr):
+                        c.setf(o, e.attr, v)
+                except Signal:
+                    pass
+        return v
 
     def e_Constant(self, c, e):
         return e.value
@@ -713,6 +745,9 @@ class Interp:
         self.assign(c, e.target, v)
         return v
 
+    def e_Assert_dummy(self):
+        pass
+
     def e_IfExp(self, c, e):
         if c.branch(self.cond(c, e.test)):
             return self.ev(c, e.body)
@@ -721,7 +756,7 @@ class Interp:
     def e_BoolOp(self, c, e):
         v = None
         for i, x in enumerate(e.values):
-            v = self.ev(c, x)
+            v = self.ev(c, x, raw=True)
             if i == len(e.values) - 1:
                 return v
             t = c.branch(truth(c, v))
@@ -732,7 +767,7 @@ class Interp:
         return v
 
     def e_UnaryOp(self, c, e):
-        v = self.ev(c, e.operand)
+        v = self.ev(c, e.operand, raw=isinstance(e.op, ast.Not))
         if isinstance(e.op, ast.Not):
             t = truth(c, v)
             return (not t) if isinstance(t, bool) else mk("bool", z3.Not(t))
@@ -749,7 +784,9 @@ class Interp:
         return self.e.models.binop(c, op, a, b, node)
 
     def e_Compare(self, c, e):
-        left = self.ev(c, e.left)
+        none_test = len(e.ops) == 1 and isinstance(e.ops[0], (ast.Is, ast.IsNot)) and \
+            isinstance(e.comparators[0], ast.Constant) and e.comparators[0].value is None
+        left = self.ev(c, e.left, raw=none_test)
         res = []
         for op, r in zip(e.ops, e.comparators):
             right = self.ev(c, r)
